@@ -216,7 +216,7 @@ void Body(Src& s, Stats& st, bool tsan_variant)
                 if (k <= 2) w.Submit(s.pick<CAmount>({step, step - 1, step + 1, step * 3, 1000}));
                 else if (k <= 4) w.Connect(s.boolean());
                 else if (k == 5) { uint64_t b = Stamp(); cur->interruptWait(); w.interrupts.push_back(IntEv{b, Stamp()}); }
-                else w.Advance(s.pick<int64_t>({1, 2, 61, 1201, 5, 4000}));
+                else w.Advance(s.pick<int64_t>({1, 2, 61, 1201, 5, 700, 1139, 4000})); // 61+1139 = exactly 20 min after the start: not yet "over 20 minutes"
                 if (s.chance(128)) std::this_thread::sleep_for(std::chrono::microseconds(s.pick<unsigned>({100, 0, 20, 1500})));
             }
             // -- make the wait end: push mock time past the deadline, or interrupt a wait without deadline
